@@ -24,9 +24,16 @@ def repo_path():
     return os.environ.get("VERIF_REPO", "/repo")
 
 
+# An incarnation of the simulated process differs from the base incarnation (hash seed 0, local time UTC) in the
+# interpreter's hash seed AND in the local time zone of the process: neither may show in what a history produces.
+LOCAL_ZONES = ["UTC", "Asia/Tokyo", "America/New_York", "Europe/Berlin", "Australia/Lord_Howe", "Asia/Kolkata",
+               "America/St_Johns", "Pacific/Chatham"]
+
+
 def worker_env(hash_seed):
     env = dict(os.environ)
     env["PYTHONHASHSEED"] = str(hash_seed)
+    env["TZ"] = LOCAL_ZONES[int(hash_seed) % len(LOCAL_ZONES)]
     env["PYTHONPATH"] = os.path.join(repo_path(), "src") + os.pathsep + VERIF
     env["VERIF_REPO"] = repo_path()
     env["PYTHONDONTWRITEBYTECODE"] = "1"
